@@ -223,6 +223,13 @@ def cases_AD(tier):
                 if ch[-1] == n - 1 and n > 1:
                     yield {'o': 'A', 'file': rel, 'idx': [0, n - 1], 'via': 'last'}
                     yield {'o': 'A', 'file': rel, 'idx': [0, n - 1], 'via': 'time'}
+            # another listing, written by another simulator, is opened (and stepped) while this one is in use
+            others = sorted((r for r in GL.shipped() if fam(r) != fam(rel)), key=lambda r: (GL.size_of(r), r))
+            seen = set()
+            for r2 in others:
+                if fam(r2) in seen: continue
+                seen.add(fam(r2))
+                yield {'o': 'A', 'file': rel, 'idx': [0, n - 1] if n < 3 else [0, 1, n - 1], 'companion': r2}
     return g
 
 
@@ -349,8 +356,15 @@ def run_A(case, R):
         via = case.get('via', 'index')
         R.label('via:' + via)
         n = len(F.full)
-        for bi in case['idx']:
+        companion = None
+        if case.get('companion'): lst._file = GL.EOFWatch(lst._file)      # a reader that never stops reading at end of file: a finding, not a time-out
+        for nvis, bi in enumerate(case['idx']):
             b = F.full[bi]
+            if case.get('companion') and nvis == 1:
+                R.label('companion-listing:%s-while-reading-%s' % (fam(case['companion']), fam(rel)))
+                with R.lib('open-companion'):
+                    companion = GL.open_listing(GL.path_of(case['companion']))
+                    companion.next(); companion.first()
             with R.lib('index'):
                 if via == 'negative': lst.index = bi - n
                 elif via == 'last' and bi == n - 1: lst.last()
@@ -383,6 +397,7 @@ def run_A(case, R):
                 if name not in lst._table: R.label('scanner-only-table:%s:%s' % (fam(rel), name))
     finally:
         lst.close()
+        if case.get('companion') and 'companion' in dir() and companion is not None: companion.close()
 
 
 def run_D(R, rel, bi, name, lt):
@@ -402,6 +417,23 @@ def run_D(R, rel, bi, name, lt):
             return
     step = 1 if len(names) <= 600 else len(names) // 300
     rows = sorted(set(list(range(0, len(names), step)) + [len(names) - 1])) if names else []
+    before = lt._data.copy()
+    if getattr(lt, 'allow_reverse_keys', False):
+        # a connection named the other way round: the negated row (documented), as often as it is asked for
+        nameset = set(names)
+        for i in rows[::max(1, len(rows) // 40)]:
+            n = names[i]
+            if not (isinstance(n, tuple) and len(n) == 2 and n[0] != n[1] and n[::-1] not in nameset and count[n] == 1): continue
+            R.label('reversed-connection-name')
+            for attempt in (1, 2):
+                byr = lt[n[::-1]]
+                if byr is None or byr.get('key') != n[::-1]:
+                    R.fail(sig + ':reversed-name', '%s[%r] = %r' % (where, n[::-1], None if byr is None else byr.get('key'))); return
+                for j, c in enumerate(cols):
+                    a, b = byr[c], -before[i, j]
+                    if not (a == b or (a != a and b != b)):
+                        R.fail(sig + ':reversed-name-value', '%s: [%r][%r] = %r (asked %d times), the row printed for %r has %r' % (
+                            where, n[::-1], c, a, attempt, n, before[i, j])); return
     for i in rows:
         n = names[i]
         byi = lt[i]
@@ -419,6 +451,9 @@ def run_D(R, rel, bi, name, lt):
             a, b = byn[c], byi[c]
             if not (a == b or (a != a and b != b)):
                 R.fail(sig + ':name-vs-index', '%s: [%r][%r] = %r but [%d][%r] = %r' % (where, n, c, a, i, c, b)); return
+    after = lt._data
+    if not (after.shape == before.shape and ((after == before) | (np.isnan(after) & np.isnan(before))).all()):
+        R.fail(sig + ':lookup-alters-table', '%s: the table holds other numbers after its rows were looked up' % where)
 
 
 def run_C(case, R):
